@@ -247,21 +247,38 @@ def clsOfByte (b : Nat) : Option Cls :=
 def encOfByte (b : Nat) : Option Enc :=
   if b = ELFDATA2LSB then some .lsb else if b = ELFDATA2MSB then some .msb else none
 
-def loadSectionsLoop (c : Cls) (enc : Enc) (tr : List Trans) (isLazy : Bool) (shoff : Int) (entsize : Nat) :
-    Nat → Nat → LoadSt → List SecBuf → LoadSt × List SecBuf
+/-- `elf_header_impl<T>::load` : `return ( stream.gcount() == sizeof( header ) );` -/
+def hdrLoadOk (c : Cls) (gcount : BitVec 64) : Bool :=
+  match c with | .c32 => hdr32_load_ok gcount | .c64 => hdr64_load_ok gcount
+
+/-- `e_ident[i]` as the `char` the C++ reads -/
+def identChar (ident : Bytes) (i : Nat) : BitVec 8 := BitVec.ofNat 8 (ident.getD i 0).toNat
+
+/-- the first `for ( Elf_Half i = 0; i < num; ++i )` of `elfio::load_sections`: create and load one
+    section per header.  The loop condition is the generated one; `fuel` only makes the recursion
+    structural (`num` iterations suffice: `LoadTie.loadSectionsLoopG_eq`).  The header offset
+    `streamoff(offset) + streampos(i) * entry_size` is computed over `Int`; it equals the generated
+    `load_sections_hdr_off` whenever the C++ addition does not overflow (`LoadTie.load_sections_hdr_off_val`). -/
+def loadSectionsLoopG (c : Cls) (enc : Enc) (tr : List Trans) (isLazy : Bool) (shoff : Int) (entsize : Nat)
+    (num : BitVec 16) : Nat → BitVec 16 → LoadSt → List SecBuf → LoadSt × List SecBuf
   | 0, _, ls, acc => (ls, acc.reverse)
-  | n + 1, i, ls, acc =>
-    let (ls, b) := secLoad c enc tr ls (shoff + (Int.ofNat i) * (Int.ofNat entsize)) isLazy i
-    loadSectionsLoop c enc tr isLazy shoff entsize n (i + 1) ls (b :: acc)
+  | fuel + 1, i, ls, acc =>
+    if load_sections_for i num then
+      let (ls, b) := secLoad c enc tr ls (shoff + (Int.ofNat i.toNat) * (Int.ofNat entsize)) isLazy i.toNat
+      loadSectionsLoopG c enc tr isLazy shoff entsize num fuel (i + 1) ls (b :: acc)
+    else (ls, acc.reverse)
 
 def setAt {α} (l : List α) (i : Nat) (x : α) : List α := l.set i x
 
-/-- names: `sections[i]->set_name(str_reader.get_string(sections[i]->get_name_string_offset()))` -/
+/-- names: `const char* p = str_reader.get_string( sections[i]->get_name_string_offset() );`
+    `if ( p != nullptr ) sections[i]->set_name( p );` -/
 def resolveNames (strtab : SecBuf) : List SecBuf → M (List SecBuf)
   | [] => pure []
   | b :: rest => do
     let r ← getString strtab b.nameOff
-    let b := match r with | some s => { b with name := s } | none => b
+    let b := if load_sections_name_found r.isSome then
+               (match r with | some s => { b with name := s } | none => b)
+             else b
     let rest ← resolveNames strtab rest
     pure (b :: rest)
 
@@ -271,16 +288,72 @@ def memberOf (g : Seg) (b : SecBuf) : Bool :=
   load_segments_member b.flags b.addr b.size g.vaddr segEndAddr b.offset g.offset segEndOff
     && !(load_segments_tls_skip g.stype b.flags)
 
-def loadSegmentsLoop (c : Cls) (enc : Enc) (tr : List Trans) (isLazy : Bool) (phoff : Int) (entsize : Nat)
-    (secs : List SecBuf) : Nat → Nat → LoadSt → List Seg → LoadSt × List Seg × Bool
+/-- `if ( file_class == ELFCLASS64 ) new segment_impl<Elf64_Phdr> else if ( file_class == ELFCLASS32 )
+    new segment_impl<Elf32_Phdr> else { pop_back; return false; }` : the instantiation chosen -/
+def segClassOf (fileClass : BitVec 8) : Option Cls :=
+  if load_segments_is64 fileClass then some .c64
+  else if load_segments_is32 fileClass then some .c32
+  else none
+
+/-- the `for ( Elf_Half i = 0; i < num; ++i )` of `elfio::load_segments` (loop condition, class
+    dispatch and failure test are the generated ones; `fuel` as in `loadSectionsLoopG`) -/
+def loadSegmentsLoopG (enc : Enc) (tr : List Trans) (isLazy : Bool) (phoff : Int) (entsize : Nat)
+    (secs : List SecBuf) (fileClass : BitVec 8) (num : BitVec 16) :
+    Nat → BitVec 16 → LoadSt → List Seg → LoadSt × List Seg × Bool
   | 0, _, ls, acc => (ls, acc.reverse, true)
-  | n + 1, i, ls, acc =>
-    let (ls, g, ok) := segLoad c enc tr ls (phoff + (Int.ofNat i) * (Int.ofNat entsize)) isLazy
-    if !ok || ls.st.fail then (ls, acc.reverse, false)
-    else
-      let members := (secs.filter (memberOf g)).map (fun b => BitVec.ofNat 16 b.index)
-      let g := { g with index := i, secs := members }
-      loadSegmentsLoop c enc tr isLazy phoff entsize secs n (i + 1) ls (g :: acc)
+  | fuel + 1, i, ls, acc =>
+    if load_segments_for i num then
+      match segClassOf fileClass with
+      | none => (ls, (acc.drop 1).reverse, false)
+      | some c =>
+        let (ls, g, ok) := segLoad c enc tr ls (phoff + (Int.ofNat i.toNat) * (Int.ofNat entsize)) isLazy
+        if load_segments_failed ok ls.st.fail then (ls, acc.reverse, false)
+        else
+          let members := (secs.filter (memberOf g)).map (fun b => BitVec.ofNat 16 b.index)
+          let g := { g with index := i.toNat, secs := members }
+          loadSegmentsLoopG enc tr isLazy phoff entsize secs fileClass num fuel (i + 1) ls (g :: acc)
+    else (ls, acc.reverse, true)
+
+/-- `elfio::load_sections( stream, is_lazy )` on the loaded header `hdr` (its `bool` result is ignored
+    by `load`) -/
+def loadSectionsM (c : Cls) (enc : Enc) (tr : List Trans) (isLazy : Bool) (hdr : Bytes) (st : IStream) :
+    M (LoadSt × List SecBuf) :=
+  let num := Hdr.e_shnum c enc hdr
+  let entsize := Hdr.e_shentsize c enc hdr
+  let shoff := Hdr.e_shoff c enc hdr
+  let fileClass : BitVec 8 := Hdr.ident hdr EI_CLASS
+  let ls : LoadSt := { st := st }
+  if load_sections_entsize_bad num fileClass entsize then pure (ls, ([] : List SecBuf)) else
+  let (ls, secs) := loadSectionsLoopG c enc tr isLazy shoff.toInt entsize.toNat num num.toNat 0 ls []
+  let shstrndx := Hdr.e_shstrndx c enc hdr
+  if load_sections_has_strtab shstrndx then
+    -- `string_section_accessor str_reader( sections[shstrndx] )` : a null section yields no names
+    match secs[shstrndx.toNat]? with
+    | none => pure (ls, secs)
+    | some strtab =>
+      let (ls, strtab) := secGetData c tr ls strtab
+      let secs := secs.set shstrndx.toNat strtab
+      (resolveNames strtab secs) >>= fun secs => pure (ls, secs)
+  else pure (ls, secs)
+
+/-- `elfio::load_segments( stream, is_lazy )` -/
+def loadSegmentsM (c : Cls) (enc : Enc) (tr : List Trans) (isLazy : Bool) (hdr : Bytes) (ls : LoadSt)
+    (secs : List SecBuf) : Option (LoadSt × List Seg × Bool) :=
+  let pnum := Hdr.e_phnum c enc hdr
+  let pentsize := Hdr.e_phentsize c enc hdr
+  let phoff := Hdr.e_phoff c enc hdr
+  let fileClass : BitVec 8 := Hdr.ident hdr EI_CLASS
+  if load_segments_entsize_bad pnum fileClass pentsize then none
+  else some (loadSegmentsLoopG enc tr isLazy phoff.toInt pentsize.toNat secs fileClass pnum pnum.toNat 0 ls [])
+
+/-- `load_sections( stream, is_lazy ); bool is_still_good = load_segments( stream, is_lazy );`
+    `return is_still_good;` on the object `o` whose header struct is `hdr` -/
+def loadTables (o : Obj) (c : Cls) (enc : Enc) (hdr : Bytes) (st : IStream) (isLazy : Bool) : M LoadRes :=
+  loadSectionsM c enc o.trans isLazy hdr st >>= fun p =>
+    match loadSegmentsM c enc o.trans isLazy hdr p.1 p.2 with
+    | none => pure { obj := { o with secs := p.2, stream := p.1.st }, ok := false, allocs := p.1.allocs }
+    | some r =>
+      pure { obj := { o with secs := p.2, segs := r.2.1, stream := r.1.st }, ok := r.2.2, allocs := r.1.allocs }
 
 /-- `elfio::load(stream, is_lazy)` on an object `o` (its header/convertor survive a failed gate) -/
 def load (o : Obj) (st : IStream) (isLazy : Bool) : M LoadRes := do
@@ -289,48 +362,24 @@ def load (o : Obj) (st : IStream) (isLazy : Bool) : M LoadRes := do
   let (st, ident) := st.read 16
   let fail (o : Obj) (st : IStream) (al : List Nat) : M LoadRes :=
     pure { obj := { o with stream := st }, ok := false, allocs := al }
-  if st.gcount != 16 then fail o st [] else
+  let idc := identChar ident
+  if load_bad_magic (BitVec.ofNat 64 st.gcount) (idc EI_MAG0) (idc EI_MAG1) (idc EI_MAG2) (idc EI_MAG3) then
+    fail o st [] else
+  if load_bad_class (idc EI_CLASS) then fail o st [] else
+  if load_bad_enc (idc EI_DATA) then fail o st [] else
   let idb (i : Nat) : Nat := (ident.getD i 0).toNat
-  if idb 0 != ELFMAG0 || idb 1 != ELFMAG1 || idb 2 != ELFMAG2 || idb 3 != ELFMAG3 then fail o st [] else
+  -- convertor.setup; create_header (nullptr for an unknown class)
+  if load_no_header (clsOfByte (idb EI_CLASS)).isNone then fail o st [] else
   match clsOfByte (idb EI_CLASS), encOfByte (idb EI_DATA) with
   | none, _ => fail o st []
   | some _, none => fail o st []
   | some c, some enc =>
-    -- convertor.setup; create_header; header->load
+    -- header->load
     let st := st.seekg (trApply o.trans 0)
     let (st, got) := st.read (ehdrSize c)
     let hdr := wr (Hdr.create c enc (idb EI_DATA)) 0 got
     let o := { o with cls := c, enc := enc, hdr := some hdr }
-    if st.gcount != ehdrSize c then fail o st [] else
-    -- load_sections
-    let num := Hdr.e_shnum c enc hdr
-    let entsize := Hdr.e_shentsize c enc hdr
-    let shoff := Hdr.e_shoff c enc hdr
-    let clsByte : BitVec 8 := Hdr.ident hdr EI_CLASS
-    let ls : LoadSt := { st := st }
-    let (ls, secs) :=
-      if load_sections_entsize_bad num clsByte entsize then (ls, ([] : List SecBuf))
-      else loadSectionsLoop c enc o.trans isLazy shoff.toInt entsize.toNat num.toNat 0 ls []
-    let (ls, secs) ←
-      if load_sections_entsize_bad num clsByte entsize then pure (ls, secs) else do
-        let shstrndx := Hdr.e_shstrndx c enc hdr
-        if shstrndx == BitVec.ofNat 16 SHN_UNDEF then pure (ls, secs) else
-        match secs[shstrndx.toNat]? with
-        | none => pure (ls, secs)
-        | some strtab =>
-          let (ls, strtab) := secGetData c o.trans ls strtab
-          let secs := secs.set shstrndx.toNat strtab
-          let secs ← resolveNames strtab secs
-          pure (ls, secs)
-    -- load_segments
-    let pnum := Hdr.e_phnum c enc hdr
-    let pentsize := Hdr.e_phentsize c enc hdr
-    let phoff := Hdr.e_phoff c enc hdr
-    if load_segments_entsize_bad pnum clsByte pentsize then
-      pure { obj := { o with secs := secs, stream := ls.st }, ok := false, allocs := ls.allocs }
-    else
-      let (ls, segs, ok) :=
-        loadSegmentsLoop c enc o.trans isLazy phoff.toInt pentsize.toNat secs pnum.toNat 0 ls []
-      pure { obj := { o with secs := secs, segs := segs, stream := ls.st }, ok := ok, allocs := ls.allocs }
+    if load_hdr_failed (hdrLoadOk c (BitVec.ofNat 64 st.gcount)) then fail o st [] else
+    loadTables o c enc hdr st isLazy
 
 end ElfioVerif
